@@ -63,10 +63,12 @@ PLANS = {
     "C04": {
         "drive": [{"kind": "pairs:compare", "count": {"quick": 4500, "thorough": 60000}}, {"kind": "pairs_repr:compare", "count": {"quick": 1200, "thorough": 12000}}],
         "gen": [{"name": "laws", "module": "Laws", "constants": {"Family": '"docs"', "Stride": "1"}, "invariants": ["LawInv"], "tiers": ("thorough",), "timeout": 3000},
+                gen("cmp11", "pairs11", ["compare"], rp="{0, 1, 3}"),
                 gen("cmp", "pairs", ["compare", "value_api"]), gen("cmp2", "pairs2", ["compare"])],
         "bounds": "all ordered pairs of the 70-document pair universe (number encodings of equal value, 2^53 neighbours, prefixes, length-only and deep differences)",
     },
     "C07": {
+        "drive": [{"kind": "edit", "count": {"quick": 6000, "thorough": 40000}, "ops": ["build_object", "build_array"]}],
         "gen": [
             {"name": "chain1", "module": "System", "constants": {"ChainLen": "1", "Walkers": "0"}, "invariants": ["GenInv"],
              "tier_constants": {"quick": {"StartSet": '"tiny"'}, "thorough": {"StartSet": '"small"'}}},
@@ -78,10 +80,11 @@ PLANS = {
     "C08": {
         "must_see": ["select:select"],
         "gen": [
-            {"name": "nav", "module": "GenPath", "constants": {"Family": '"nav"'}, "tier_constants": {"quick": {"MaxSteps": "1"}, "thorough": {"MaxSteps": "2"}}},
+            {"name": "nav", "module": "GenPath", "constants": {"Family": '"nav"'}, "tier_constants": {"quick": {"MaxSteps": "2"}, "thorough": {"MaxSteps": "2"}}},
             {"name": "filter", "module": "GenPath", "constants": {"Family": '"filter"', "MaxSteps": "0"}},
             {"name": "pred", "module": "GenPath", "constants": {"Family": '"pred"', "MaxSteps": "0"}},
             {"name": "err", "module": "GenPath", "constants": {"Family": '"err"', "MaxSteps": "0"}},
+            {"name": "pre", "module": "GenPath", "constants": {"Family": '"pre"', "MaxSteps": "0"}},
         ],
         "bounds": "21 documents (scalar roots, empty containers, arrays of objects, container-valued members, number encodings) x navigation step sequences of <= N steps over 26 steps (wildcards, three name spellings, 19 index lists incl. last+-k, ranges, negative and i32-extreme values) and 170 filter steps (6 operators x operand paths x 10 literals, literal-left, path-vs-path, root-relative, &&/|| nesting, exists, nested filters) in 4 positions, 40 stand-alone predicates, arithmetic expressions and 64-bit-overflowing index forms",
     },
@@ -96,7 +99,7 @@ PLANS = {
     },
     "C15": {
         "gen": [
-            {"name": "nav", "module": "GenPath", "constants": {"Family": '"nav"'}, "tier_constants": {"quick": {"MaxSteps": "1"}, "thorough": {"MaxSteps": "2"}}},
+            {"name": "nav", "module": "GenPath", "constants": {"Family": '"nav"'}, "tier_constants": {"quick": {"MaxSteps": "2"}, "thorough": {"MaxSteps": "2"}}},
             {"name": "filter", "module": "GenPath", "constants": {"Family": '"filter"', "MaxSteps": "0"}},
             {"name": "pred", "module": "GenPath", "constants": {"Family": '"pred"', "MaxSteps": "0"}},
             {"name": "pre", "module": "GenPath", "constants": {"Family": '"pre"', "MaxSteps": "0"}},
@@ -148,7 +151,7 @@ PLANS = {
         "bounds": "all ordered pairs of the pair universe; distinct over the bounded universe",
     },
     "C19": {
-        "drive": [{"kind": "serde", "count": {"quick": 2400, "thorough": 30000}}],
+        "drive": [{"kind": "serde", "count": {"quick": 2400, "thorough": 30000}}, {"kind": "serde_repr", "count": {"quick": 1500, "thorough": 16000}}],
         "gen": [gen("serde", "render", ["serde"])],
         "bounds": "the C03 universe: strings of every code-point class as values and keys, every finite number of the boundary set (u64/i64 extremes), nested empty containers",
     },
